@@ -6,7 +6,7 @@ from ..core import hx, lst, WILD
 from ..ref import P, L, to32, le
 
 REQUIRED = ['seed:corner', 'seed:random', 'msg:len0', 'msg:len128', 'msg:long', 'ctx:0', 'ctx:255', 'ctx:256-refused',
-            'ctx:1000-refused', 'keypair:match', 'keypair:mismatch', 'accept:own', 'reject:flip-key', 'reject:flip-msg',
+            'ctx:1000-refused', 'keypair:match', 'keypair:mismatch', 'keypair:mismatch-torsion', 'accept:own', 'reject:flip-key', 'reject:flip-msg',
             'reject:flip-ctx', 'reject:flip-R', 'reject:flip-S', 'hazmat:passthrough', 'batch:own']
 
 MSG_LENS = [0, 1, 63, 64, 65, 111, 112, 127, 128, 129]
@@ -44,6 +44,15 @@ def gen(ctx, size, long_msgs=False):
                         'T' if small else 'F'], cls=sc)
         ctx.add('sig.esk', h.hex(), expect=['ok', Ab.hex(), to32(a % L).hex(), h[32:].hex()], cls=sc)
         ctx.add('sig.sk_tryfrom', seed.hex(), expect=['ok', Ab.hex()], cls=sc)
+        ctx.add('misc.sk_generate', seed.hex(), expect=[seed.hex(), Ab.hex()], cls=sc)
+        other_seed = vals.rb(rng, 32)
+        ctx.add('misc.sk_eq', seed.hex(), other_seed.hex(), expect=['F', 'F', Ab.hex(), seed.hex()], cls=sc)
+        ctx.add('misc.sk_eq', seed.hex(), seed.hex(), expect=['T', 'T', Ab.hex(), seed.hex()], cls=sc)
+        ctx.add('misc.vk_conv', Ab.hex(), Ab.hex(), expect=lambda t, Ab=Ab: None if (t[0] == Ab.hex() and t[1] == Ab.hex() and t[2] == Ab.hex()
+                and t[3].endswith(Ab.hex()) and t[4] == 'T' and t[5] == Ab.hex()) else 'VerifyingKey conversions: %r' % (t,), cls=sc)
+        cb = vals.rb(rng, rng.choice([0, 1, 255]))
+        ctx.add('misc.ctx', seed.hex(), hx(cb), expect=['ok', hx(cb), seed.hex()], cls=sc)
+        ctx.add('misc.ctx', seed.hex(), hx(vals.rb(rng, 256)), expect=['err'], cls='ctx:256-refused')
         # keypair import
         ctx.add('sig.from_keypair', (seed + Ab).hex(), expect=['ok', Ab.hex()], cls='keypair:match')
         other = ref.ed_public(vals.rb(rng, 32)) if rng.random() < 0.5 else flip(Ab, rng)
@@ -52,6 +61,17 @@ def gen(ctx, size, long_msgs=False):
         # a public half that encodes the same point non-canonically or its negation must not be accepted either
         neg = bytes(Ab[:31]) + bytes([Ab[31] ^ 0x80])
         ctx.add('sig.from_keypair', (seed + neg).hex(), expect=['err'], cls='keypair:mismatch')
+        # related-but-different public halves: the derived point translated by each 8-torsion point, small multiples
+        for j in (range(1, 8) if rng.random() < 0.5 else [rng.randrange(1, 8)]):
+            tb = ref.ed_compress(ref.aff_add(A, ref.TORSION[j]))
+            ctx.add('sig.from_keypair', (seed + tb).hex(), expect=['err'], cls=['keypair:mismatch', 'keypair:mismatch-torsion'])
+        for mult in (2, 8, L - 1, L + 1):
+            mb = ref.ed_compress(ref.aff_mul(mult % (8 * L), A))
+            if mb != Ab:
+                ctx.add('sig.from_keypair', (seed + mb).hex(), expect=['err'], cls='keypair:mismatch')
+        for tb in (ref.ed_compress(ref.IDENT), ref.ed_compress(ref.TORSION[4]), ref.ed_compress(ref.B)):
+            if tb != Ab:
+                ctx.add('sig.from_keypair', (seed + tb).hex(), expect=['err'], cls='keypair:mismatch')
         # sign
         lens = [rng.choice(MSG_LENS), rng.choice(MSG_LENS)]
         if long_msgs and rng.random() < 0.1:
@@ -61,6 +81,7 @@ def gen(ctx, size, long_msgs=False):
             sig = ref.ed_sign(seed, msg)
             mc = ['msg:len%d' % ln if ln in (0, 128) else 'msg:long' if ln >= 4096 else 'msg:other']
             ctx.add('sig.sign', seed.hex(), hx(msg), expect=[sig.hex()] * 3, cls=[sc] + mc)
+            ctx.add('misc.sig_parts', sig.hex(), expect=[sig[:32].hex(), sig[32:].hex(), sig.hex(), sig.hex()], trivial=True)
             # accepted by every verification variant under its key
             ctx.add('sig.verify', Ab.hex(), hx(msg), sig.hex(), expect=['ok', okerr(not small), 'ok'], cls='accept:own')
             ctx.add('sig.skverify', seed.hex(), hx(msg), sig.hex(), expect=['ok', okerr(not small), WILD], cls='accept:own')
